@@ -186,6 +186,7 @@ def _run_one(case, tmp: Path, prof):
         work.mkdir()
     allowed = []
     own = []  # input files written by this runner itself
+    truth_file = []  # sync: the file named as the source of truth (an input)
     steps = []
 
     def put(path, text):
@@ -310,6 +311,8 @@ def _run_one(case, tmp: Path, prof):
                 put(files[k], case["src"][k])
                 if k != case["truth"]:
                     allowed.append(str(files[k]))
+                else:
+                    truth_file.append(str(files[k]))
             argv = ["sync", "--truth", case["truth"], "--class", str(files["class"]), "--class-name", "C", "--function", str(files["function"]),
                     "--function-name", case.get("function_name", "f"), "--argparse-function", str(files["argparse_function"]), "--argparse-function-name", "set_cli_args"]
             step("sync", lambda: main(argv))
@@ -378,7 +381,8 @@ def _run_one(case, tmp: Path, prof):
     for m in canary:
         del sys.modules[m]
     return {"events": S.events, "adhoc": [{k: _jsonable(v) for k, v in a.items()} for a in S.adhoc], "steps": steps, "sentinel": sentinel_hit,
-            "stray_files": [p.replace(str(tmp), "<tmp>") for p in stray], "allowed": allowed, "canary_loaded": canary, "tmp": str(tmp), "harness_error": harness_error}
+            "stray_files": [p.replace(str(tmp), "<tmp>") for p in stray], "allowed": allowed, "canary_loaded": canary, "tmp": str(tmp), "harness_error": harness_error,
+            "truth_file": truth_file[0] if truth_file else None}
 
 
 def child_main(inp: str, outp: str):
@@ -487,7 +491,10 @@ def judge(case, rec, meta, predict):
                 out.append(({"kind": "import-from-input", "module": e["name"]}, "module %r named only by the analysed input was imported" % e["name"]))
         elif ev == "open-write":
             if os.path.realpath(e["path"]) not in allowed and not (control and _under(e["path"], [tmp])):
-                out.append(({"kind": "write-outside-output", "fn": fn}, "opened %r for writing (mode %r); named outputs: %s" % (e["path"], e["mode"], sorted(rec["allowed"]))))
+                which = "truth-file" if rec.get("truth_file") and os.path.realpath(e["path"]) == os.path.realpath(rec["truth_file"]) else "other"
+                out.append(({"kind": "write-outside-output", "fn": fn, "which": which},
+                            "opened %r for writing (mode %r)%s; named outputs: %s" % (e["path"], e["mode"], " — the file given as the source of truth" if which == "truth-file" else "",
+                                                                                       sorted(rec["allowed"]))))
         elif ev == "hook-error":
             raise core.HarnessError("audit hook failed: %s" % e["args"])
         else:
@@ -553,7 +560,7 @@ def gen_runtime_cases(rng, toks, n: int):
         elif k == "gen":
             kinds_ = tuple(rng.sample(["function", "class", "argparse"], rng.randint(1, 2)))
             src, _ = G.adv_module(rng, toks, kinds=kinds_)
-            cases.append({"fn": "gen", "src": src, "opts": {"parse": rng.choice(["infer", "class", "function", "argparse"]),
+            cases.append({"fn": "gen", "src": src, "opts": {"parse": rng.choice(["infer", "class", "function", "argparse_function"]),
                                                           "emit": rng.choice(["class", "argparse", "function", "json_schema", "sqlalchemy", "sqlalchemy_table", "pydantic"]),
                                                           "emit_call": rng.random() < 0.3, "infer_imports": rng.random() < 0.3, "nww": rng.choice([None, True])}})
         elif k == "bottle":
@@ -568,8 +575,8 @@ def gen_runtime_cases(rng, toks, n: int):
     return cases
 
 
-CONTROL_CASE = {"fn": "control_input_eval", "src_in": "open(%r, 'w').write('x')\nX = 5\n" % G.SENT, "src_out": "class B:\n    a: int = 1\n",
-                "input_params": ["X"], "output_params": ["B.a"], "opts": {}}
+CONTROL_CASE = {"fn": "control_input_eval", "src_in": "import %s\n__import__('os').system('true')\nopen(%r, 'w').write('x')\nX = 5\n" % (G.EVIL_MOD, G.SENT),
+                "src_out": "class B:\n    a: int = 1\n", "input_params": ["X"], "output_params": ["B.a"], "opts": {}}
 # the shortest witnesses of each channel, always run (they are also the regression corpus of the oracle)
 FIXED_CASES = [
     {"fn": "docstring", "doc": "\n:param a: List of `os.system` or `open('@SENTINEL@','w')`. Defaults to __import__('os').system('touch @SENTINEL@')\n"
@@ -587,6 +594,14 @@ FIXED_CASES = [
                               % (G.EVIL_MOD, G.EVIL_MOD), "opts": {"format": "google", "ta": True}},
     {"fn": "gen", "src": "import %s\nopen('@SENTINEL@','w')\n\nclass C(object):\n    \"\"\"\n    :cvar a: x or y. Defaults to open('@SENTINEL@','w')\n    \"\"\"\n    a: int = open('@SENTINEL@','w')\n" % G.EVIL_MOD,
      "opts": {"parse": "class", "emit": "argparse"}},
+    # witness of the known finding C17-sync-rewrites-truth (benign input: the truth file itself is rewritten)
+    {"fn": "sync", "truth": "class", "src": {
+        "class": "class C(object):\n    \"\"\"\n    Doc.\n\n    :cvar a: the thing\n    \"\"\"\n\n    a: int = 5\n",
+        "function": "def f(a=5):\n    \"\"\"\n    Doc.\n\n    :param a: the thing\n    :type a: ```int```\n    \"\"\"\n",
+        "argparse_function": "def set_cli_args(argument_parser):\n    \"\"\"\n    Set CLI arguments\n\n    :param argument_parser: argument parser\n"
+                             "    :type argument_parser: ```ArgumentParser```\n\n    :return: argument_parser\n    :rtype: ```ArgumentParser```\n    \"\"\"\n"
+                             "    argument_parser.description = \"Doc.\"\n    argument_parser.add_argument(\"--a\", type=int, help=\"the thing\", required=True, default=5)\n"
+                             "    return argument_parser\n"}},
 ]
 
 
@@ -721,9 +736,12 @@ def run(chk: core.Check) -> int:
     # the control: the explicitly requested --input-eval mode must be *seen* by the oracle (liveness of hook, sentinel and attribution)
     ctl = recs[0]
     ctl_exec = [e for e in ctl["events"] if e["ev"] == "exec" and e["caller_func"] == "sync_property"]
-    if not (ctl["sentinel"] and ctl_exec):
-        raise core.HarnessError("control case (sync_properties --input-eval on a sentinel writer) was not observed: sentinel=%s exec events=%d steps=%s"
-                                % (ctl["sentinel"], len(ctl_exec), ctl["steps"]))
+    ctl_seen = {"sentinel file": ctl["sentinel"], "exec attributed to sync_property": bool(ctl_exec),
+                "canary import event": any(e["ev"] == "import" and e["name"] == G.EVIL_MOD for e in ctl["events"]),
+                "os.system event": any(e["ev"] == "os.system" for e in ctl["events"]),
+                "write event outside the output": any(e["ev"] == "open-write" and e["path"].endswith("PWNED") for e in ctl["events"])}
+    if not all(ctl_seen.values()):
+        raise core.HarnessError("control case (sync_properties --input-eval on a hostile module) was not fully observed: %s steps=%s" % (ctl_seen, ctl["steps"]))
     # model predictions for every captured in-situ call of parse_adhoc_doc_for_typ
     calls, idx = [], {}
     for rec in recs:
@@ -766,7 +784,7 @@ def run(chk: core.Check) -> int:
     chk.coverage["runtime_cases_by_fn"] = fn_stats
     chk.coverage["runtime_steps"] = dict(sorted(step_stats.items()))
     chk.coverage["runtime_doc_eval_executions"] = n_exec_doc
-    chk.coverage["runtime_control"] = "sync_properties(input_eval=True) on a sentinel writer: sentinel created and %d exec events attributed to sync_property — observed, allowed (the stated exception)" % len(ctl_exec)
+    chk.coverage["runtime_control"] = "sync_properties(input_eval=True) on a hostile module — every channel observed (%s); allowed: it is the stated exception" % ", ".join(sorted(ctl_seen))
     ex = next((r for r in recs[1:] if any(e["ev"] == "exec" and e["caller_func"] == DOC_EVAL_SITE[1] for e in r["events"])), None)
     if ex is not None:
         e = next(e for e in ex["events"] if e["ev"] == "exec" and e["caller_func"] == DOC_EVAL_SITE[1])
